@@ -646,4 +646,12 @@ theorem applyFault_safe (sem : Sem σ δ) (s : RState σ δ) (e : Err) (dec : Fa
     (applyFault sem s e dec).st.safe = s.safe := by
   simp [applyFault, h, applySafeState, deliver_evs]
 
+/-- `apply_fault` writes the latch, the image and the driver state — nothing else. -/
+theorem applyFault_ctl (sem : Sem σ δ) (s : RState σ δ) (e : Err) (dec : FaultDecision) :
+    (applyFault sem s e dec).st.policy = s.policy ∧ (applyFault sem s e dec).st.wdAction = s.wdAction ∧
+    (applyFault sem s e dec).st.safe = s.safe ∧ (applyFault sem s e dec).st.now = s.now ∧
+    (applyFault sem s e dec).st.cycles = s.cycles ∧ (applyFault sem s e dec).st.store = s.store := by
+  simp only [applyFault]
+  split <;> simp [applySafeState]
+
 end TrustVerif.C08
